@@ -26,6 +26,23 @@ use std::path::{Path as FsPath, PathBuf};
 use std::sync::Mutex;
 use std::time::Duration;
 
+/// At most two violations per key and worker are forwarded (the shared report
+/// keeps 200 entries in total: a frequent known finding must not crowd out
+/// another key).
+static SEEN_KEYS: Mutex<BTreeMap<String, u32>> = Mutex::new(BTreeMap::new());
+
+fn violate(rep: &mut Report, what: &str, key: &str, input: J) {
+    let n = {
+        let mut g = SEEN_KEYS.lock().unwrap();
+        let e = g.entry(key.to_string()).or_insert(0);
+        *e += 1;
+        *e
+    };
+    if n <= 2 {
+        rep.violation(what, key, input);
+    }
+}
+
 // ------------------------------------------------------------------ programs
 
 const SUPER: usize = 0;
@@ -1752,7 +1769,7 @@ fn check_variant(rep: &mut Report, drv: &mut Driver, p: &Program, label: &str, i
             );
         }
         if let Out::Panic(m) = &run.base {
-            rep.violation(&format!("the compiler panicked on a module tree: {m}"), &format!("panic:{m}"), json!({"case": ident, "variant": label, "sources": sources_json(p, &none, &empty)}));
+            violate(rep, &format!("the compiler panicked on a module tree: {m}"), &format!("panic:{m}"), json!({"case": ident, "variant": label, "sources": sources_json(p, &none, &empty)}));
         }
         res.class.push(format!("tree:{}", model.base.class()));
         rep.hist("tree_outcome", model.base.class());
@@ -1819,13 +1836,13 @@ fn check_variant(rep: &mut Report, drv: &mut Driver, p: &Program, label: &str, i
             json!({"case": ident, "variant": label, "blamed": blamed, "sources": sources_json(p, &keep_ok, &tags)}),
         );
         if let Out::Panic(m) = &run.base {
-            rep.violation(&format!("the compiler panicked on a module tree: {m}"), &format!("panic:{m}"), json!({"case": ident, "variant": label, "sources": sources_json(p, &keep_ok, &tags)}));
+            violate(rep, &format!("the compiler panicked on a module tree: {m}"), &format!("panic:{m}"), json!({"case": ident, "variant": label, "sources": sources_json(p, &keep_ok, &tags)}));
         }
         if let Out::Err(k) = &run.base {
             if k.contains("Parse error") {
                 // every reference is rendered in documented syntax: a parse error is the parser's
                 let key = if k.contains("got 'pkg'") || k.contains("got 'super'") { "return-path-keyword" } else { "reference-does-not-parse" };
-                rep.violation(&format!("a reference in documented syntax does not parse: {k}"), key, json!({"case": ident, "variant": label, "blamed": blamed, "sources": sources_json(p, &keep_ok, &tags)}));
+                violate(rep, &format!("a reference in documented syntax does not parse: {k}"), key, json!({"case": ident, "variant": label, "blamed": blamed, "sources": sources_json(p, &keep_ok, &tags)}));
             }
         }
         res.class.push("tree:ok/refs-rejected".into());
@@ -1862,7 +1879,8 @@ fn check_variant(rep: &mut Report, drv: &mut Driver, p: &Program, label: &str, i
         rep.evaluations += 1;
         if got != want {
             // the property itself: every function is retrievable by its module path (and nothing else is)
-            rep.violation(
+            violate(
+                rep,
                 &format!("get_function(\"{path}\"): expected {} got {}", want.show(), got.show()),
                 &format!("get_function:{}", if matches!(want, Out::Ok(_)) { "missing-or-wrong" } else { "unexpected" }),
                 json!({"case": ident, "variant": label, "path": path, "sources": sources_json(p, &keep_ok, &tags)}),
@@ -1911,7 +1929,7 @@ fn check_variant(rep: &mut Report, drv: &mut Driver, p: &Program, label: &str, i
             );
         }
         if let Out::Panic(m) = &one.base {
-            rep.violation(&format!("the compiler panicked on a reference: {m}"), &format!("panic:{m}"), json!({"case": ident, "variant": label, "sources": sources_json(p, &only, &tags)}));
+            violate(rep, &format!("the compiler panicked on a reference: {m}"), &format!("panic:{m}"), json!({"case": ident, "variant": label, "sources": sources_json(p, &only, &tags)}));
         }
     }
 
@@ -1933,7 +1951,8 @@ fn check_variant(rep: &mut Report, drv: &mut Driver, p: &Program, label: &str, i
             };
             rep.evaluations += 1;
             if &want != got {
-                rep.violation(
+                violate(
+                rep,
                     &format!(
                         "reference `{}` written in {} resolves to {} but the lookup rules (innermost declarations, imports, outward; later segments direct members) on the compiler's own scope graph designate {} ({label})",
                         path.join("."), i.scope, got.show(), want.show()
@@ -2111,7 +2130,8 @@ fn check_disk(rep: &mut Report, drv: &mut Driver, p: &Program, keep: &dyn Fn(usi
         want_paths.sort();
     }
     if disk_paths != want_paths {
-        rep.violation(
+        violate(
+                rep,
             &format!("file discovery: modules {:?} expected {:?}", disk_paths, want_paths),
             "discovery:module-set",
             json!({"case": ident, "variant": label, "listing": toks.join(" ")}),
@@ -2122,7 +2142,8 @@ fn check_disk(rep: &mut Report, drv: &mut Driver, p: &Program, keep: &dyn Fn(usi
     rep.evaluations += 1;
     if run.base != mem.base || run.probes != mem.probes || run.exports != mem.exports {
         let diff: Vec<String> = mem.probes.iter().filter(|(i, o)| run.probes.get(i) != Some(o)).map(|(i, o)| format!("{i}: memory {} disk {}", o.show(), run.probes.get(i).map_or("-".into(), |x| x.show()))).collect();
-        rep.violation(
+        violate(
+                rep,
             &format!("the tree read from disk does not mean what the same tree in memory means: base {} vs {}; {:?}", run.base.show(), mem.base.show(), &diff[..diff.len().min(4)]),
             "disk-vs-memory",
             json!({"case": ident, "variant": label, "listing": toks.join(" ")}),
@@ -2151,7 +2172,8 @@ fn check_disk(rep: &mut Report, drv: &mut Driver, p: &Program, keep: &dyn Fn(usi
                 rep.mismatch(&format!("discovery model does not list `{name}` twice: {want}"), json!({"case": ident, "variant": label}));
             }
             if got != Out::Err("declaredTwice".into()) {
-                rep.violation(
+                violate(
+                rep,
                     &format!("`{name}.roto` and `{name}/mod.roto` both exist: expected the error \"declared twice\", got {}", got.show()),
                     "discovery:file-and-directory",
                     json!({"case": ident, "variant": label, "listing": toks.join(" ")}),
@@ -2200,7 +2222,8 @@ fn check_case(rep: &mut Report, drv: &mut Driver, p: &Program, ident: J, tier: &
         let shape = if explained { "sibling-alias-prefix" } else { "other" };
         let all = |_: usize| true;
         let empty = BTreeMap::new();
-        rep.violation(
+        violate(
+                rep,
             &format!("the order of imports changes what names mean: {}", differs.join("; ")),
             &format!("import-order:{shape}"),
             json!({"case": ident, "differs": differs, "sources": sources_json(p, &all, &empty), "sources_reversed": sources_json(&q, &all, &empty)}),
@@ -2240,16 +2263,17 @@ fn main() {
         Some("run") => {
             let seed: u64 = args[2].parse().expect("seed");
             let tier = args.get(3).map(|s| s.as_str()).unwrap_or("quick");
-            let total: u64 = match tier { "thorough" => 40000, "search" => 4000, _ => 1500 };
+            let total: u64 = match tier { "thorough" => 24000, "search" => 4000, _ => 1500 };
             let mut rep = Report::default();
             let seed_s = seed.to_string();
-            worker::run_batches(&[&seed_s, tier], total, 250, Duration::from_secs(900), &mut rep, |rep, last, ended| {
+            worker::run_batches(&[&seed_s, tier], total, if tier == "thorough" { 1000 } else { 250 }, Duration::from_secs(900), &mut rep, |rep, last, ended| {
                 let how = match ended {
                     Ended::Signal(s, _) => format!("signal {s}"),
                     Ended::Timeout => "timeout".into(),
                     Ended::Exit(c, _) => format!("exit {c}"),
                 };
-                rep.violation(
+                violate(
+                rep,
                     &format!("worker died ({how}) while compiling / running a module tree"),
                     &format!("crash {how}"),
                     json!({"case": {"seed": seed, "index": last, "tier": tier}}),
